@@ -296,7 +296,7 @@ Proof.
   rewrite repo_modulus. unfold bn_bin2bn.
   replace (p_privlen repo_params) with 32%nat by reflexivity.
   replace (p_publen repo_params) with 256%nat by reflexivity.
-  rewrite firstn_all2 by lia. reflexivity.
+  rewrite firstn_all2 by lia. unfold modexp_Z. reflexivity.
 Qed.
 
 (* the same statement for integers: every 256-bit private value x, every a >= 0, every 256-bit r *)
@@ -331,7 +331,10 @@ Theorem generate_pub_correct pub0 priv blinding :
   length pub0 = 256%nat -> bytes_ok priv -> length priv = 32%nat -> bytes_ok blinding ->
   dh_generate_pub repo_params modexp_Z pub0 priv (Some blinding) =
   Some (be_encode 256 (dh_pub_spec (be_decode priv))).
-Proof. intros. unfold dh_generate_pub. rewrite blinded_modexp_correct by assumption. reflexivity. Qed.
+Proof.
+  intros. unfold dh_generate_pub. rewrite blinded_modexp_correct by assumption.
+  unfold dh_pub_spec, dh_exponent. replace (p_generator repo_params) with 2 by reflexivity. reflexivity.
+Qed.
 
 Theorem compute_correct key0 pub priv blinding :
   length key0 = 256%nat -> length pub = 256%nat -> bytes_ok priv -> length priv = 32%nat -> bytes_ok blinding ->
@@ -340,7 +343,7 @@ Theorem compute_correct key0 pub priv blinding :
 Proof.
   intros Hk Hpub Hp Hpl Hb. unfold dh_compute. rewrite blinded_modexp_correct by assumption.
   unfold bn_bin2bn. replace (p_publen repo_params) with 256%nat by reflexivity.
-  rewrite firstn_all2 by lia. reflexivity.
+  rewrite firstn_all2 by lia. unfold dh_key_spec, dh_exponent. reflexivity.
 Qed.
 
 Theorem generate_correct pub0 priv blinding rest :
